@@ -20,6 +20,7 @@ type Subscription[T any] struct {
 	mu    sync.Mutex
 	topic *Topic[T]
 	ch    <-chan T
+	done  chan struct{}
 }
 
 // Channel returns the chan that can be used to receive values from this
@@ -56,6 +57,9 @@ func (s *Subscription[T]) Close() {
 		return // already closed
 	}
 
+	// Release a publisher that is blocked delivering to us while holding
+	// the Topic lock that unsubscribeID needs.
+	close(s.done)
 	s.topic.unsubscribeID(s.id)
 	s.ch = nil
 	s.topic = nil
